@@ -130,7 +130,7 @@ class OperatorTemplate(AbstractBaseTemplate):
         # share a name: its key is the name plus the frozen equations and variable definitions.
         key = self.name
         cache_key = (self.name, tuple(self.equations),
-                     tuple(sorted((str(k), repr(v)) for k, v in self.variables.items())))
+                     tuple(sorted((str(k), _freeze_definition(v)) for k, v in self.variables.items())))
         if values is None:
             values = {}
 
@@ -180,6 +180,17 @@ class OperatorTemplate(AbstractBaseTemplate):
             return instance, values, key
         else:
             return instance, values
+
+
+def _freeze_definition(v):
+    """Hashable stand-in for a variable definition that captures its full content (`repr` abbreviates large arrays)."""
+    if isinstance(v, dict):
+        return tuple(sorted((str(k), _freeze_definition(x)) for k, x in v.items()))
+    if isinstance(v, (list, tuple)):
+        return tuple(_freeze_definition(x) for x in v)
+    if hasattr(v, 'tobytes') and hasattr(v, 'shape'):
+        return 'ndarray', tuple(v.shape), str(v.dtype), v.tobytes()
+    return repr(v)
 
 
 def check_vname(v: str, vtype: str):
